@@ -140,8 +140,91 @@ def seq_oracle(case):
 seq_case = st.fixed_dictionaries({"reuse": st.booleans(),
                                   "steps": st.lists(st.fixed_dictionaries({"m": S.any_msg(), "legacy": st.booleans()}), min_size=2, max_size=5)})
 
+# ---------------------------------------------------------------------------
+# one message object living through a series of in-place changes (as the simulator does: the same RxMsg is patched and
+# encoded once per destination): every encoding must be the layout encoding of the object's CURRENT content
+
+def life_oracle(case):
+    m = dict(case["m"])
+    msg = tk.build_msg(m)
+    bkey = "bits" if m["cls"] == "tx" else "soft"
+    if m.get(bkey) is not None:
+        m[bkey] = list(m[bkey])
+    n_enc = n_changed_burst = 0
+    for k, op in enumerate(case["ops"]):
+        kind = op[0]
+        if kind == "set":
+            f, v = op[1], op[2]
+            if f not in m or (f in ("tsc", "tsc_set") and m.get("nope")):
+                continue
+            if f == "tsc_set" and m.get("mod") != "GMSK":
+                v = v % 2
+            m[f] = v
+            setattr(msg, f, v)
+        elif kind in ("edit", "slice", "new") and m.get(bkey) is not None:
+            b = m[bkey]
+            n = len(b)
+            val = (lambda x: x & 1) if m["cls"] == "tx" else (lambda x: (x % 255) - 127)
+            if kind == "edit":
+                for (i, x) in op[1]:
+                    b[i % n] = val(x)
+                    msg.burst[i % n] = val(x)
+            elif kind == "slice":
+                i, vals = op[1] % n, [val(x) for x in op[2]][:n - op[1] % n]
+                b[i:i + len(vals)] = vals
+                if m["cls"] == "tx":
+                    msg.burst[i:i + len(vals)] = bytearray(vals)
+                else:
+                    from array import array
+                    msg.burst[i:i + len(vals)] = array("b", vals)
+            else:
+                vals = [val(x + j) for j, x in enumerate((op[1] * ((n // max(1, len(op[1]))) + 1))[:n])] if op[1] else [val(0)] * n
+                m[bkey] = vals
+                if m["cls"] == "tx":
+                    msg.burst = bytearray(vals)
+                else:
+                    from array import array
+                    msg.burst = array("b", vals)
+            n_changed_burst += 1
+        elif kind == "encode":
+            legacy = bool(op[1])
+            try:
+                got = bytes(msg.gen_msg(legacy))
+            except ValueError as e:
+                raise Violation("c04:life:valid-message-refused", "step %d: %r" % (k, e))
+            exp = ref_trxd.encode(dict(m, **{bkey: m.get(bkey)}), legacy)
+            n_enc += 1
+            if got != exp:
+                i = next((j for j in range(min(len(got), len(exp))) if got[j] != exp[j]), min(len(got), len(exp)))
+                hl = 6 if m["cls"] == "tx" else (8 if m["ver"] == 0 else 11)
+                raise Violation("c04:encoder-differs-from-layout:%s:v%d:%s:after-in-place-change" % (m["cls"], m["ver"], "hdr" if i < hl else "burst"),
+                                "encoding %d of one object (step %d, after %d burst changes): octet %d toolkit %s layout %s" % (
+                                    n_enc, k, n_changed_burst, i, got[i:i + 4].hex(), exp[i:i + 4].hex()))
+    return (["life/%s/v%d" % (m["cls"], m["ver"]), "encodings=%d" % min(n_enc, 4)], n_enc >= 2 and n_changed_burst >= 1,
+            {"cls": m["cls"], "ver": m["ver"], "ops": [o[0] for o in case["ops"]]})
+
+
+_setop = st.one_of(
+    st.tuples(st.just("set"), st.just("fn"), S.fn()), st.tuples(st.just("set"), st.just("tn"), st.integers(0, 7)),
+    st.tuples(st.just("set"), st.just("pwr"), st.integers(0, 255)), st.tuples(st.just("set"), st.just("rssi"), st.integers(-120, -47)),
+    st.tuples(st.just("set"), st.just("toa256"), S.biased(-32768, 32767)), st.tuples(st.just("set"), st.just("ci"), S.biased(-1280, 1280)),
+    st.tuples(st.just("set"), st.just("tsc"), st.integers(0, 7)), st.tuples(st.just("set"), st.just("tsc_set"), st.integers(0, 3)))
+_burstop = st.one_of(
+    st.tuples(st.just("edit"), st.lists(st.tuples(st.integers(0, 1000), st.integers(0, 255)), min_size=1, max_size=4)),
+    st.tuples(st.just("slice"), st.integers(0, 1000), st.lists(st.integers(0, 255), min_size=1, max_size=12)),
+    st.tuples(st.just("new"), st.lists(st.integers(0, 255), max_size=6)))
+_enc = st.tuples(st.just("encode"), st.booleans())
+_anyop = st.one_of(_setop, _burstop, _burstop, _enc, _enc).map(list)
+_chg = st.one_of(_setop, _burstop, _burstop, _burstop).map(list)
+# shape: ... encode, >=1 change, encode ... (so that most cases have a change between two encodings of the same object)
+life_case = st.fixed_dictionaries({
+    "m": S.any_msg(),
+    "ops": st.tuples(st.lists(_anyop, max_size=3), _enc.map(list), st.lists(_chg, min_size=1, max_size=4), _enc.map(list),
+                     st.lists(_anyop, max_size=5)).map(lambda t: t[0] + [t[1]] + t[2] + [t[3]] + t[4])})
+
 
 SUBS = [
+    Sub("py_object_life", strategy=life_case, oracle=life_oracle, examples={"quick": 800, "thorough": 30000}),
     Sub("py_sequences", strategy=seq_case, oracle=seq_oracle, examples={"quick": 500, "thorough": 20000}),
     Sub("py_encoder_vs_layout", strategy=enc_case, oracle=enc_oracle, examples={"quick": 2500, "thorough": 80000}),
     Sub("py_decoder_vs_layout", strategy=datagram(), oracle=dec_oracle, examples={"quick": 4000, "thorough": 160000}),
@@ -219,7 +302,56 @@ c_rx_case = st.fixed_dictionaries({"m": S.rx_msg(vers=(0,)), "legacy": st.sample
 c_tx_case = st.fixed_dictionaries({"fn": S.fn(), "tn": st.integers(0, 7), "pwr": S.biased(0, 255),
                                    "bits": st.one_of(S.hard_bits(148), S.hard_bits(148), S.hard_bits(444), st.just(b""))})
 
+def c_inst_oracle(case):
+    """two transceiver instances of one trxcon process used alternately (multi-TRX / multislot operation): every burst of every
+    instance must be encoded / decoded from its own request alone - same per-step oracles as above"""
+    t = trx()
+    try:
+        for i in (0, 1):
+            t.req("inst %d" % i)
+            t.req("open")
+        n_rep = 0
+        prev = {}
+        for k, step in enumerate(case["steps"]):
+            t.req("inst %d" % step["inst"])
+            try:
+                if step["dir"] == "tx":
+                    c_tx_oracle(step)
+                    if prev.get(step["inst"]) == step["fn"]:
+                        n_rep += 1
+                    prev[step["inst"]] = step["fn"]
+                else:
+                    c_rx_oracle(step)
+            except Violation as v:
+                raise Violation(v.sig + ":two-instances", "step %d of %d on instance %d: %s" % (k, len(case["steps"]), step["inst"], v.msg))
+        t.req("inst 0")
+    except cbuild.DriverCrash as c:
+        raise Violation("c04:trxcon-crash:" + c.signature(), c.stderr[-500:])
+    insts = set(s_["inst"] for s_ in case["steps"])
+    return (["inst-seq/%d" % len(case["steps"])] + (["same-fn-again"] if n_rep else []), len(insts) == 2 and n_rep > 0,
+            {"steps": [(s_["inst"], s_["dir"], s_.get("fn", s_.get("m", {}).get("fn"))) for s_ in case["steps"]]})
+
+
+@st.composite
+def c_inst_case(draw):
+    base = draw(S.fn())
+    fnst = st.one_of(st.just(base), st.just(base), st.just((base + 1) % ref_trxd.HYPERFRAME), S.fn())
+    steps = []
+    for _ in range(draw(st.integers(3, 10))):
+        inst = draw(st.integers(0, 1))
+        if draw(st.integers(0, 3)) > 0:
+            steps.append({"dir": "tx", "inst": inst, "fn": draw(fnst), "tn": draw(st.integers(0, 7)), "pwr": draw(S.biased(0, 255)),
+                          "bits": draw(st.one_of(S.hard_bits(148), S.hard_bits(444)))})
+        else:
+            m = draw(S.rx_msg(vers=(0,)))
+            m["fn"] = draw(fnst)
+            steps.append({"dir": "rx", "inst": inst, "m": m, "legacy": draw(st.booleans())})
+    return {"steps": steps}
+
+
 SUBS += [
+    Sub("c_two_instances", strategy=c_inst_case(), oracle=c_inst_oracle, examples={"quick": 400, "thorough": 10000},
+        shards={"quick": 1, "thorough": 8}, prepare=prepare),
     Sub("c_rx_toolkit_to_trxcon", strategy=c_rx_case, oracle=c_rx_oracle, examples={"quick": 2500, "thorough": 60000},
         shards={"quick": 1, "thorough": 8}, prepare=prepare),
     Sub("c_tx_trxcon_to_toolkit", strategy=c_tx_case, oracle=c_tx_oracle, examples={"quick": 2500, "thorough": 60000},
